@@ -1,7 +1,7 @@
 (* Media.v — src/media_playlist.rs and src/media_segment.rs: the parser state machine,
    MediaPlaylistBuilder::build (validation, numbering, IV derivation, byte-range
    completion), RequiredVersion and Display. *)
-From hls Require Import Base Float Lex Kinds Types Tags Line.
+From hls Require Import Base Float Lex Kinds Types Tags Line Keys.
 From hls.Generated Require Import Tables.
 Open Scope N_scope.
 
@@ -29,7 +29,7 @@ Definition key_eqb (a b : Key) : bool :=
   (k_method a =? k_method b) && str_eqb (k_uri a) (k_uri b) && iv_eqb (k_iv a) (k_iv b)
   && opt_eqb kf_eqb (k_format a) (k_format b)
   && opt_eqb (list_eqb N.eqb) (k_versions a) (k_versions b).
-Definition xkey_eqb (a b : xkey) : bool := opt_eqb key_eqb a b.
+Definition xkey_eqb (a b : xkey) : bool := xeqb key_eqb a b.
 
 (* key format with "absent = identity" (RFC 8216 4.3.2.4) *)
 Definition fmt_of (k : Key) : KeyFormat :=
@@ -72,19 +72,8 @@ Record pstate := { ps_seg : seg_acc; ps_partial : bool; ps_hasdisc : bool;
 (* the EXT-X-KEY update of the keys in effect (ordered container since the determinism
    fix): METHOD=NONE clears and leaves the explicit-none marker; a key removes the
    first entry that is the marker or has the same KEYFORMAT, then is appended *)
-Definition key_hit (k : Key) (old : xkey) : bool :=
-  match old with Some o => same_fmt o k | None => true end.
-Fixpoint find_first {A} (p : A -> bool) (l : list A) : option A :=
-  match l with [] => None | x :: r => if p x then Some x else find_first p r end.
-Definition key_step (ks : list xkey) (x : xkey) : list xkey :=
-  match x with
-  | None => [None]
-  | Some k =>
-      match find_first (key_hit k) ks with
-      | Some old => filter (fun y => negb (xkey_eqb y old)) ks ++ [x]
-      | None => ks ++ [x]
-      end
-  end.
+Definition key_step (ks : list xkey) (x : xkey) : list xkey := key_step_gen same_fmt key_eqb ks x.
+Definition keys_after (h : list xkey) : list xkey := fold_left key_step h [].
 
 Definition set_seg (s : pstate) (a : seg_acc) : pstate :=
   {| ps_seg := a; ps_partial := true; ps_hasdisc := ps_hasdisc s; ps_unknown := ps_unknown s;
